@@ -476,3 +476,50 @@ def s_decorator_default_opset(ctx):
 
 SCENARIOS.append(Scenario("C13.export.decorator", s_decorator_default_opset, [(REL, "_Exporter._translate_graph"), (REL, "_Exporter._translate_function"),
                                                                               (REL, "_Exporter._make_opset_name"), (REL, "_Exporter._rename_domain")]))
+
+
+def s_graph_signature_names(_ctx):
+    """_translate_graph: the parameter names of the generated `def` are the names the generated body uses for the graph
+    inputs, under rename=False and rename=True (real _Exporter instance, real _translate_signature / _translate_onnx_var;
+    only the body translation is replaced by a recorder of the names it would use)."""
+    import onnx
+    from onnx import helper, TensorProto
+    from contracts.c17_opsets import Agg
+    from pyvc.core import Ctx
+    exp = _exp()
+    agg = Agg()
+    cl = "C13: 'returns Python source whose execution defines a script function ... under every export option (rename, ...)'"
+    n = 0
+    for rename in (False, True):
+        for names in (["x"], ["x", "w.0"], ["5", "class"]):
+            n += 1
+            ctx = Ctx([], {"solver_s": 0.0, "queries": 0})
+            I = Interp(ctx)
+            ex = exp._Exporter(rename=rename, use_operators=False, inline_const=False, skip_initializers=False)
+            g = helper.make_graph([helper.make_node("Identity", [names[0]], ["y"])], "g",
+                                  [helper.make_tensor_value_info(nm, TensorProto.FLOAT, [2]) for nm in names],
+                                  [helper.make_tensor_value_info("y", TensorProto.FLOAT, [2])])
+            m = helper.make_model(g, opset_imports=[helper.make_opsetid("", 18)])
+            used = {}
+
+            def m_body(interp, slf, graph, opsets, indent=0):
+                for vi_ in graph.input:
+                    used[vi_.name] = interp.call(interp.getattr(slf, "_translate_onnx_var"), [vi_.name])
+                return "    pass"
+            I.models[exp._Exporter._translate_graph_body] = m_body
+            try:
+                text = I.run_closure(I.closure_of(exp._Exporter._translate_graph), [ex, m, "main"], {})
+                defline = [ln for ln in text.splitlines() if ln.strip().startswith("def ")][0]
+                tree = ast.parse(defline + "\n    pass\n").body[0]
+                params = [a.arg for a in tree.args.args]
+                want = [used[nm] for nm in names]
+                ok = params == want
+                detail = f"rename={rename}, graph inputs {names}: signature parameters {params}, names used for them in the body {want}"
+            except Exception as e:  # noqa: BLE001
+                ok, detail = False, f"rename={rename}, inputs {names}: {type(e).__name__}: {e}"
+            agg.ob("C13.export.graph_signature.parameters_are_the_names_the_body_uses_for_the_inputs", ok, detail, cl, case=f"rename={rename} {names}")
+    return {"obligations": agg.obs, "paths": n, "covered": [f"signature_cases={n}"], "notes": [], "functions": []}
+
+
+SCENARIOS.append(Scenario("C13.export.graph_signature", s_graph_signature_names, [(REL, "_Exporter._translate_graph"), (REL, "_translate_signature"),
+                                                                                  (REL, "_translate_signature.input_sig")], kind="evaluation"))
